@@ -69,7 +69,7 @@ def enc_err_class(e):
         return "range"
     if isinstance(e, ValueError) and "is missing" in s:
         return "missing"
-    if isinstance(e, ValueError) and "Cannot encode None as a float" in s:
+    if isinstance(e, ValueError) and ("Cannot encode None as a float" in s or "no 'not available' value" in s):
         return "range"
     if isinstance(e, ValueError) and "cannot convert float NaN" in s:
         return "notfinite"
@@ -712,4 +712,110 @@ def roundtrip_search(ctx, exhaustive_bits=10):
             r = roundtrip_check(sfx, p, decs[sfx], efn, x)
             if r and r[0] not in hits:
                 hits[r[0]] = (r[0], r[1], sfx, x)
+    return list(hits.values()), n
+
+
+# ----------------------------------------------------------------------------- C09 oracle: encode never silently corrupts
+def c09_check(sfx, p, dfn, efn, base, i, lab, val, raw, copy):
+    """one value class on one field; returns None or (key, what)"""
+    dbf = p["Fields"][i]
+    t = dbf["FieldType"]
+    m = copy.deepcopy(base)
+    if lab == "removed":
+        del m.fields[i]
+    else:
+        m.fields[i].value = val
+        if raw is not None or t in ("LOOKUP", "DATE", "TIME", "DURATION"):
+            m.fields[i].raw_value = raw
+    try:
+        b = efn(m)
+    except Exception:
+        return None                      # an error is always acceptable
+    if lab == "removed":
+        return (f"C09/missing-field-encoded/{sfx}", f"{sfx}: field {dbf['Id']} removed, yet a payload was produced")
+    x = int.from_bytes(b, "little")
+    try:
+        m2 = dfn(x)
+    except Exception as e:
+        if t in ("NUMBER", "PGN") and isinstance(val, (int, float)) and not isinstance(val, bool):
+            return ("C09/encodes-undecodable/NUMBER", f"{sfx} field {dbf['Id']}: value {val!r} encodes to a payload the decoder rejects ({e}) — a reserved code between the database maximum and the top code")
+        return (f"C09/encodes-undecodable/{t}", f"{sfx} field {dbf['Id']} ({lab}): encodes to a payload the decoder rejects ({type(e).__name__}: {e})")
+    f2 = m2.fields[i]
+    if t in ("NUMBER", "PGN"):
+        if val is None:
+            ok = f2.value is None
+        elif isinstance(val, (int, float)) and not isinstance(val, bool) and not (isinstance(val, float) and (math.isnan(val) or math.isinf(val))):
+            res = dbf["Resolution"]
+            ok = f2.value is not None and abs(frac(f2.value) - frac(val)) <= frac(res) / 2 + abs(frac(val)) / 2 ** 45
+        else:
+            ok = False
+        if not ok:
+            return (f"C09/number-corrupted/{p['PGN']}.{dbf['Id']}", f"{sfx} field {dbf['Id']} ({lab}): value {val!r} encodes without error but decodes back as {f2.value!r}")
+    elif t == "RESERVED":
+        if f2.value != val:
+            return ("C09/wraps-silently/RESERVED", f"{sfx} field {dbf['Id']}: value {val!r} is stored as {f2.value!r} without an error (masked to {dbf['BitLength']} bits)")
+    elif t == "LOOKUP":
+        if raw is not None and f2.raw_value != raw:
+            return ("C09/wraps-silently/LOOKUP", f"{sfx} field {dbf['Id']}: raw {raw!r} is stored as {f2.raw_value!r} without an error")
+        if raw is None and f2.value != val:
+            return (f"C09/lookup-corrupted/{p['PGN']}.{dbf['Id']}", f"{sfx} field {dbf['Id']}: name {val!r} decodes back as {f2.value!r}")
+    elif t == "DATE":
+        exp = raw if raw is not None else (None if val is None else (val - datetime.date(1970, 1, 1)).days)
+        got = f2.raw_value
+        if exp != got:
+            return ("C09/wraps-silently/DATE", f"{sfx} field {dbf['Id']}: date raw {exp!r} is stored as {got!r} without an error")
+    elif t in ("TIME", "DURATION"):
+        res = dbf["Resolution"]
+        if raw is not None:
+            ticks = round(raw / res) if not (isinstance(raw, float) and math.isnan(raw)) else None
+            got = None if f2.raw_value is None else round(f2.raw_value / res)
+            if ticks != got:
+                return (f"C09/wraps-silently/{t}", f"{sfx} field {dbf['Id']}: raw {raw!r} ({ticks} ticks) is stored as {got!r} ticks without an error")
+        elif val is None and f2.raw_value is not None:
+            return (f"C09/absent-corrupted/{p['PGN']}.{dbf['Id']}", f"{sfx} field {dbf['Id']}: absent value decodes back as {f2.raw_value!r}")
+    # locality: every other field's bits unchanged w.r.t. the base encoding
+    try:
+        xb = int.from_bytes(efn(base), "little")
+    except Exception:
+        return None
+    for j, g in enumerate(p["Fields"]):
+        if j == i:
+            continue
+        n, o = g["BitLength"], g["BitOffset"]
+        if (x >> o) & ((1 << n) - 1) != (xb >> o) & ((1 << n) - 1):
+            return (f"C09/locality/{p['PGN']}.{dbf['Id']}", f"{sfx}: changing field {dbf['Id']} ({lab}) changed the bits of field {g['Id']}")
+    return None
+
+
+def c09_search(ctx, n_mut=3):
+    import copy
+    harness.load_repo()
+    from nmea2000 import pgns
+    db = Db(ctx["repo"])
+    rnd = random.Random(ctx["seed"] + 47)
+    decs = dict(decoder_functions(pgns))
+    hits = {}
+    n = 0
+    for sfx, efn in encoder_functions(pgns):
+        p = db.defs.get(sfx)
+        if p is None or not encodable(p) or sfx not in decs:
+            continue
+        base = None
+        for x in [base_payload(p, rnd, "zero"), base_payload(p, rnd, "rand")]:
+            try:
+                base = decs[sfx](x)
+                if base is not None:
+                    break
+            except Exception:
+                continue
+        if base is None:
+            continue
+        idx = list(range(len(base.fields)))
+        rnd.shuffle(idx)
+        for i in idx[:n_mut]:
+            for lab, val, raw in mutate_values(base.fields[i], p["Fields"][i], rnd):
+                n += 1
+                r = c09_check(sfx, p, decs[sfx], efn, base, i, lab, val, raw, copy)
+                if r and r[0] not in hits:
+                    hits[r[0]] = (r[0], r[1], sfx, (i, lab, repr(val), repr(raw)))
     return list(hits.values()), n
